@@ -31,8 +31,21 @@ def shownOf (c : DrawCfg) (w x : Int) (m : Rune) (comb : List Rune) (st : Style)
 def shownWidth (c : DrawCfg) (w x : Int) (m : Rune) (comb : List Rune) : Int :=
   (Scr.cellText c w x (obsMain c.rw m) comb (obsWidth c.rw m)).2
 
+/-- the same when the locked-neighbour guard of the repaired drawCell is taken into account: `nl` = the guard is
+compiled in and the next column was locked when the cell was painted (then a wide rune is a blank of width 1) -/
+def shownOfG (c : DrawCfg) (w x : Int) (m : Rune) (comb : List Rune) (st : Style) (nl : Bool) : ACell :=
+  let tx := Scr.cellTextG c w x (obsMain c.rw m) comb (obsWidth c.rw m) nl
+  .shown tx.1 (decide (tx.2 > 1)) st
+
 /-- the style a cell with style `st` is painted with when the screen default is `dflt` -/
 def resolveStyle (dflt st : Style) : Style := if st = ({} : Style) then dflt else st
+
+/-- what the invariant remembers about a cell that was painted as a blank because its right neighbour was locked:
+the rune it holds has not been replaced since (its stored width is still positive), and either the neighbour is still
+locked or the cell no longer holds a wide rune (then it is Dirty).  LockRegion(…, false) re-dirties the cell
+(`redirtyLeft`), which is what keeps this true. -/
+def BlankOk (b : Buf) (x y : Int) : Prop :=
+  0 < (b.cells x y).width ∧ (b.locked (x + 1) y = true ∨ (b.getContent x y).2.2.2 ≤ 1)
 
 /-- The cross-Show invariant (`d` = the default style every clean StyleDefault cell was painted with,
 `none` if unknown/mixed). -/
@@ -43,23 +56,45 @@ structure SyncInv (c : DrawCfg) (d : Option Style) (s : Scr) (t : ATerm) : Prop 
   ch : s.cells.h = s.h
   wok : ∀ x y, WOk c.rw (s.cells.cells x y)
   valid : s.style.attrs ≠ attrInvalid ∧ ∀ x y, (s.cells.cells x y).currStyle.attrs ≠ attrInvalid
-  /-- a clean unlocked cell shows what it held when it was marked clean -/
+  /-- a clean unlocked cell shows what it held when it was marked clean — a wide rune possibly as the blank of width 1
+  the repaired drawCell paints when the next column is locked (`nl`) -/
   g1 : ∀ x y, s.cells.inRange x y → (s.cells.cells x y).lock = false → (s.cells.cells x y).lastMain ≠ 0 →
-        ∃ st', t.grid x y = shownOf c s.w x (s.cells.cells x y).lastMain (s.cells.cells x y).lastComb st' ∧
+        ∃ st' nl, t.grid x y = shownOfG c s.w x (s.cells.cells x y).lastMain (s.cells.cells x y).lastComb st' nl ∧
           ((s.cells.cells x y).lastStyle ≠ {} → st' = (s.cells.cells x y).lastStyle) ∧
-          ((s.cells.cells x y).lastStyle = {} → ∀ d', d = some d' → st' = d')
+          ((s.cells.cells x y).lastStyle = {} → ∀ d', d = some d' → st' = d') ∧
+          (nl = true → obsWidth c.rw (s.cells.cells x y).lastMain > 1 → c.guardLocked = true ∧ BlankOk s.cells x y)
   /-- the right half of a wide glyph on the terminal belongs to a cell that is locked or needs repaint -/
   g2 : ∀ x y, s.cells.inRange x y → t.grid x y = .cont →
         ((s.cells.cells x y).lock = true ∨ (s.cells.cells x y).lastMain = 0)
   /-- well-formedness of the terminal grid: a continuation cell has a wide glyph to its left -/
   wf : ∀ x y, s.cells.inRange x y → t.grid x y = .cont → ∃ b st, t.grid (x - 1) y = .shown b true st
-  /-- a clean unlocked wide cell has its continuation on the terminal -/
+  /-- a clean unlocked cell that shows a wide glyph has its continuation on the terminal -/
   g3 : ∀ x y, s.cells.inRange x y → (s.cells.cells x y).lock = false → (s.cells.cells x y).lastMain ≠ 0 →
-        shownWidth c s.w x (s.cells.cells x y).lastMain (s.cells.cells x y).lastComb > 1 → x + 1 < s.w →
-        t.grid (x + 1) y = .cont
+        ∀ b st, t.grid x y = .shown b true st → x + 1 < s.w → t.grid (x + 1) y = .cont
+
+/-- the number of columns the draw loop advances by at column `x` (drawCell's return value, tscreen.go:815-970): GetContent's
+width, except that a wide rune whose right neighbour is locked counts one column when the repaired drawCell paints it
+(`guardLocked`, only if the cell is Dirty — the tree as it is) or always (`walkGuard`, the proposed fix); a wide rune
+in the last column leaves the row either way -/
+def stepW (c : DrawCfg) (b : Buf) (x y : Int) : Int :=
+  if c.guardLocked = true ∧ (b.getContent x y).2.2.2 > 1 ∧ b.locked (x + 1) y = true ∧
+      (c.walkGuard = true ∨ b.dirty x y = true) then 1
+  else (b.getContent x y).2.2.2
 
 /-- which columns of row `y` the draw loop visits, starting at `x0` (the others are the right halves of
 wide runes); mirrors the `x += width - 1` skipping of tscreen.go:1067-1080 -/
+def visitsG (c : DrawCfg) (b : Buf) (y : Int) : Nat → Int → Int → Bool
+  | 0, _, _ => false
+  | fuel + 1, x0, i =>
+    if x0 < b.w then
+      if i = x0 then true
+      else visitsG c b y fuel (x0 + stepW c b x0 y) i
+    else false
+
+/-- column `x` of row `y` is visited by a whole-row pass of a draw that starts with buffer `b` -/
+def visitedG (c : DrawCfg) (b : Buf) (x y : Int) : Bool := visitsG c b y b.w.toNat 0 x
+
+/-- the walk of the pinned drawCell (no locked-neighbour guard): it depends on the stored widths only -/
 def visits (rw : Rune → Int) (b : Buf) (y : Int) : Nat → Int → Int → Bool
   | 0, _, _ => false
   | fuel + 1, x0, i =>
@@ -68,7 +103,7 @@ def visits (rw : Rune → Int) (b : Buf) (y : Int) : Nat → Int → Int → Boo
       else visits rw b y fuel (x0 + (b.getContent x0 y).2.2.2) i
     else false
 
-/-- column `i` of row `y` is visited by a whole-row pass -/
+/-- column `i` of row `y` is visited by a whole-row pass (pinned drawCell) -/
 def visited (rw : Rune → Int) (b : Buf) (x y : Int) : Bool := visits rw b y b.w.toNat 0 x
 
 end Tcell
@@ -88,9 +123,10 @@ structure PassInv (c : DrawCfg) (d : Option Style) (s : Scr) (t : ATerm) (x y : 
   kcur : s.cells.inRange s.cx s.cy → t.cur = some (s.cx, s.cy)
   /-- the pen cache is right unless it is the "unknown" marker -/
   kpen : s.curstyle ≠ styleInvalid → t.pen = some s.curstyle
-  /-- the cell just left of the visit position, if clean and unlocked, is narrow on the terminal -/
-  q : 1 ≤ x → x < s.w → (s.cells.cells (x - 1) y).lock = false → (s.cells.cells (x - 1) y).lastMain ≠ 0 →
-        shownWidth c s.w (x - 1) (s.cells.cells (x - 1) y).lastMain (s.cells.cells (x - 1) y).lastComb ≤ 1
+  /-- when the visit position is unlocked, the cell just left of it, if clean and unlocked, is narrow on the terminal -/
+  q : 1 ≤ x → x < s.w → (s.cells.cells x y).lock = false →
+        (s.cells.cells (x - 1) y).lock = false → (s.cells.cells (x - 1) y).lastMain ≠ 0 →
+        ∀ b st, t.grid (x - 1) y ≠ .shown b true st
   /-- cells painted in this pass use the current default style -/
   dcompat : ∀ d', d = some d' → d' = s.style
 
@@ -103,7 +139,7 @@ structure VisitPost (c : DrawCfg) (d : Option Style) (s : Scr) (t : ATerm) (x y 
     (s' : Scr) (t' : ATerm) (wd : Int) : Prop where
   inv : PassInv c d s' t' (x + wd) y
   wd_pos : 1 ≤ wd
-  wd_eq : wd = (s.cells.getContent x y).2.2.2 ∨ (x + wd ≥ s.w ∧ x + (s.cells.getContent x y).2.2.2 ≥ s.w)
+  wd_eq : wd = stepW c s.cells x y ∨ (x + wd ≥ s.w ∧ x + stepW c s.cells x y ≥ s.w)
   gc_same : ∀ i j, s'.cells.getContent i j = s.cells.getContent i j
   lock_same : ∀ i j, (s'.cells.cells i j).lock = (s.cells.cells i j).lock
   other_same : ∀ i j, (j ≠ y ∨ i < x ∨ i ≥ x + wd) → s'.cells.cells i j = s.cells.cells i j
@@ -115,6 +151,9 @@ structure VisitPost (c : DrawCfg) (d : Option Style) (s : Scr) (t : ATerm) (x y 
   cursor_same : s'.cursorx = s.cursorx ∧ s'.cursory = s.cursory ∧ s'.cursorStyle = s.cursorStyle ∧ s'.cursorColor = s.cursorColor
   flags_same : s'.clear = s.clear ∧ s'.fini = s.fini
   writes : t'.writes = if s.cells.dirty x y then (x, y) :: t.writes else t.writes
+  /-- with the guard compiled in, no cell a payload of this iteration occupies — the addressed cell or the right half
+  of a two-column glyph — is locked -/
+  covers : ∃ cs, t'.covered = cs ++ t.covered ∧ (c.guardLocked = true → ∀ p ∈ cs, s.cells.locked p.1 p.2 = false)
   vis_same : t'.visible = t.visible ∧ t'.shape = t.shape
 
 end Tcell
